@@ -196,3 +196,13 @@ Proof.
   rewrite H1 in E1. rewrite H2 in E2. injection E1 as -> ->. injection E2 as -> ->.
   unfold angle. rewrite V1, V2, dot_Rz. reflexivity.
 Qed.
+
+(* ------------------------------------------------------------------ bundles (one statement each in Properties.v) *)
+Lemma rows_orthonormal_nonzero b s : valid_sel s ->
+  Rabs (eps_of (euler_row b s)) <= eps_max /\ forall a d, 0 < norm2 (euler_xyz (euler_row b s) a d).
+Proof. intro H. split; [apply rows_orthonormal; exact H | intros a d; apply rows_nonzero; exact H]. Qed.
+
+Lemma rows_vectors b s : valid_sel s ->
+  isometry_to eps_max (euler_lin (euler_row b s)) /\
+  forall u v, Rabs (chord2 (euler_lin (euler_row b s) u) (euler_lin (euler_row b s) v) - chord2 u v) <= eps_max * chord2 u v.
+Proof. intro H. split; [apply rows_near_isometry; exact H | intros u v; apply rows_chord_preserved; exact H]. Qed.
